@@ -118,7 +118,7 @@ fn field_sweeps(spec: &Spec, fields: &[Field], fm: &FieldMap, thorough: bool) ->
 
 /// All single-field perturbations of a packet assignment, including fields of the first element of
 /// arrays/lists, list lengths, and every arm of the tagged unions.
-fn sweeps(c: &Corpus, lay: &Layout, base: &FieldMap, r: &mut Rng, thorough: bool) -> Vec<(String, FieldMap)> {
+pub fn sweeps(c: &Corpus, lay: &Layout, base: &FieldMap, r: &mut Rng, thorough: bool) -> Vec<(String, FieldMap)> {
     let spec = &c.spec;
     let mut out = field_sweeps(spec, &lay.fields, base, thorough);
     if lay.name == "MSO" {
